@@ -354,6 +354,8 @@ type bResp struct {
 	pending uint64
 	pt      gpbft.PowerEntries
 	items   []bItem
+	// hold: when set, the responder sends the header, then waits for this channel before it sends the certificates
+	hold chan struct{}
 }
 
 type byzResponder struct {
@@ -408,6 +410,17 @@ func (b *byzResponder) handle(stream network.Stream) {
 	var buf bytes.Buffer
 	hdr := certexchange.ResponseHeader{PendingInstance: resp.pending, PowerTable: resp.pt}
 	_ = hdr.MarshalCBOR(&buf)
+	if resp.hold != nil {
+		if _, err := stream.Write(buf.Bytes()); err != nil {
+			_ = stream.Reset()
+			return
+		}
+		buf.Reset()
+		select {
+		case <-resp.hold:
+		case <-time.After(20 * time.Second):
+		}
+	}
 	for _, it := range resp.items {
 		switch it.kind {
 		case 'c':
@@ -669,11 +682,28 @@ func byzClientCases(h, other *certgen.History) {
 		if pt {
 			r.pt = h.Tables[0]
 		}
+		reuse := r.fail == 0 && rng.Chance(1, 3)
+		if reuse {
+			// the caller re-uses its Request object for something else as soon as Request has returned, while the
+			// certificates are still on their way: the response must be judged against the request that was sent
+			r.hold = make(chan struct{})
+		}
 		byz.set([]bResp{r})
 		req := certexchange.Request{FirstInstance: first, Limit: limit, IncludePowerTable: pt}
 		out.Line("# byz %s %s", tag, kinds([]bResp{r}))
 		hdr, ch, err := client.Request(ctx, byzHost.ID(), &req)
 		line := fmt.Sprintf("byz %d %d %d %s =>", first, limit, b01(pt), respText(r))
+		if reuse {
+			switch rng.Intn(3) {
+			case 0:
+				req.FirstInstance += uint64(1 + rng.Intn(3))
+			case 1:
+				req.FirstInstance -= uint64(1 + rng.Intn(3))
+			default:
+				req.Limit = uint64(rng.Intn(2))
+			}
+			close(r.hold)
+		}
 		if err != nil {
 			out.Line("%s err -", line)
 			continue
